@@ -67,7 +67,8 @@ LEAVES = [
     L("enum_num", {"type": "number", "enum": [1.5, 2.5]}, enf=True),
     # untyped enums
     L("enum_strnull", {"enum": ["a", "b", None]}, strish=False),
-    L("enum_mixed", {"enum": [1, "a"]}),
+    # {"enum": [1, "a"]} (untyped enum over several JSON types) is outside the supported fragment: convert_unknown_enum has an
+    # explicit panic!("multiple implied types for an un-typed enum") arm, like the todo!()/unimplemented!() arms it is excluded
     # not enum (outside C02's fragment; C05 deny lists, C01, C11)
     L("not_enum_str", {"type": "string", "not": {"enum": ["a", "b"]}}, ff=False, enf=True, strish=True),
     L("not_enum_untyped", {"not": {"enum": ["a"]}}, ff=False, strish=True),
